@@ -147,6 +147,40 @@ where
             None => h.expect(false, "C05.many_scalars", &format!("the blind issuance flow failed for L = {}, M = {} with the production randomness", l, m), &[h.last()]),
         }
     }
+    // an absent header is the empty header, for every party of the blind flow: the signer signs with one spelling, the
+    // holder verifies and proves with the other, the verifier uses the first again
+    {
+        let (sk, pk) = rand_keypair::<CS>(h);
+        let msgs = rand_msgs(h, 2);
+        let cmsgs = rand_msgs(h, 1);
+        let empty: &[u8] = &[];
+        for (hs, hv) in [(None, Some(empty)), (Some(empty), None)] {
+            h.stat("C05.header_spelling");
+            let tape = rand_tape(h, 3);
+            let (c, _) = commit::<CS>(h, Some(&cmsgs), tape);
+            if let Some((c, bf)) = c.ok() {
+                let cwp = c.to_bytes();
+                let s = blindsign::<CS>(h, &sk, &pk, Some(&cwp), hs, Some(&msgs));
+                let sid = h.last();
+                if let Some(s) = s.ok() {
+                    let sig = s.bbsPlusBlindSignature().clone();
+                    let v = verifyblind::<CS>(h, &pk, &sig, hv, Some(&msgs), Some(&cmsgs), Some(&bf.to_bytes()));
+                    h.expect(v.is_ok(), "C05.none_empty_hdr", "a blind signature issued with an absent header does not verify with the empty header (or the reverse)", &[sid, h.last()]);
+                    let run = BlindRun { cwp: cwp.clone(), blind: bf.to_bytes(), sig: sig.clone() };
+                    let tape2 = rand_tape(h, 5 + 2);
+                    let (bp, _) = blindproofgen::<CS>(h, &pk, &run.sig.to_bytes(), hv, None, Some(&msgs), Some(&cmsgs), Some(&[0]), Some(&[0]), Some(&run.blind), tape2);
+                    if let Some(bp) = bp.ok() {
+                        let dm = vec![msgs[0].clone()];
+                        let dcm = vec![cmsgs[0].clone()];
+                        let v = blindproofverify::<CS>(h, &pk, &bp, hs, Some(empty), Some(2), Some(&dm), Some(&dcm), Some(&[0]), Some(&[0]));
+                        h.expect(v.is_ok(), "C05.none_empty_hdr", "a blind proof made with one spelling of the empty header / presentation header does not verify with the other", &[h.last()]);
+                    }
+                } else {
+                    h.expect(false, "C05.blind_sign", "blind_sign refused an honest commitment", &[sid]);
+                }
+            }
+        }
+    }
     // commitments to THOUSANDS of messages (beyond 2^11; thorough: beyond 2^12 and 2^13): prover-side and signer-side
     // limits, if any, must agree -- what `commit` produces, `blind_sign` accepts
     let huge: &[(usize, usize)] = if thorough { &[(1, 2100), (0, 4100), (1, 8200)] } else { &[(1, 2100)] };
@@ -284,6 +318,57 @@ where
     out
 }
 
+/// Weak Fiat-Shamir: commitment proofs made by a prover who KNOWS an opening of C but hashes only part of the
+/// transcript the verifier is supposed to bind (C and Cbar only; without the count; without the generators; without
+/// C). The responses satisfy the verification equation for that challenge, so the only thing that refuses them is the
+/// challenge comparison over the FULL transcript.
+pub fn weak_transcript_commitments<CS: BbsCiphersuite>(h: &mut H, m: usize) -> Vec<(&'static str, Vec<u8>)>
+where
+    CS::Expander: for<'a> ExpandMsg<'a>,
+{
+    use bls12_381_plus::group::Curve;
+    use bls12_381_plus::G1Projective;
+    use zkryptium::bbsplus::generators::Generators;
+    use zkryptium::utils::util::bbsplus_utils::{hash_to_scalar, ScalarExt};
+    let gens = Generators::create::<CS>(m + 1, Some(&[b"BLIND_", CS::API_ID_BLIND].concat())).values;
+    let rs = |h: &mut H| -> Scalar {
+        let mut a = [0u8; 32];
+        a.copy_from_slice(&rand_scalar_bytes(h));
+        Scalar::from_be_bytes(&a).unwrap()
+    };
+    let secret: Vec<Scalar> = (0..m + 1).map(|_| rs(h)).collect();
+    let tilde: Vec<Scalar> = (0..m + 1).map(|_| rs(h)).collect();
+    let mut c_pt = G1Projective::IDENTITY;
+    let mut cbar = G1Projective::IDENTITY;
+    for i in 0..m + 1 {
+        c_pt += gens[i] * secret[i];
+        cbar += gens[i] * tilde[i];
+    }
+    let enc = |p: &G1Projective| p.to_affine().to_compressed().to_vec();
+    let gens_b: Vec<u8> = gens.iter().flat_map(|g| enc(g)).collect();
+    let cnt = (m as u64).to_be_bytes().to_vec();
+    let dst = [CS::API_ID_BLIND, CS::H2S].concat();
+    let transcripts: Vec<(&'static str, Vec<u8>)> = vec![
+        ("weak_fs_points_only", [enc(&c_pt), enc(&cbar)].concat()),
+        ("weak_fs_no_generators", [cnt.clone(), enc(&c_pt), enc(&cbar)].concat()),
+        ("weak_fs_no_count", [gens_b.clone(), enc(&c_pt), enc(&cbar)].concat()),
+        ("weak_fs_no_commitment", [cnt.clone(), gens_b.clone(), enc(&cbar)].concat()),
+        // (self-check of this construction: the FULL transcript must be accepted)
+        ("weak_fs_selfcheck_full_transcript", [cnt.clone(), gens_b.clone(), enc(&c_pt), enc(&cbar)].concat()),
+    ];
+    let mut out = Vec::new();
+    for (nm, t) in transcripts {
+        let c = match hash_to_scalar::<CS>(&t, &dst) { Ok(c) => c, Err(_) => continue };
+        let mut b = enc(&c_pt);
+        for i in 0..m + 1 {
+            b.extend_from_slice(&(tilde[i] + secret[i] * c).to_be_bytes());
+        }
+        b.extend_from_slice(&c.to_be_bytes());
+        out.push((nm, b));
+    }
+    out
+}
+
 pub fn c06<CS: BbsCiphersuite>(h: &mut H)
 where
     CS::Expander: for<'a> ExpandMsg<'a>,
@@ -319,6 +404,17 @@ where
                 h.expect(!d.is_ok(), "C06.small_order_decode", "Commitment::from_bytes decoded a commitment that is not in the prime-order group", &[h.last()]);
                 let v = devc::<CS>(h, Some(&cwp), 1);
                 h.expect(!v.is_ok(), "C06.small_order_validate", "deserialize_and_validate_commit accepted a commitment that is not in the prime-order group", &[h.last()]);
+            }
+        }
+        // proofs by a prover who knows an opening but hashes only part of the transcript
+        for mm in [0usize, 2] {
+            for (class, cwp) in weak_transcript_commitments::<CS>(h, mm) {
+                if class == "weak_fs_selfcheck_full_transcript" {
+                    let s = blindsign::<CS>(h, &sk, &pk, Some(&cwp), hdr.as_deref(), Some(&msgs));
+                    h.expect(s.is_ok(), "C06.weak_fs_selfcheck", "harness self-check: a commitment proof assembled by the harness over the full transcript is refused (the construction no longer mirrors the implementation)", &[h.last()]);
+                } else {
+                    refuse(h, class, &cwp);
+                }
             }
         }
         // forgeries from public information that are consistent with a verifier losing terms of its recomputation
